@@ -346,7 +346,7 @@ func (m c04) Run(c *fw.Ctx) {
 		}
 		c.Exhaustive(fmt.Sprintf("Universe(L=%d,arity<=3) x n in [-3L,3L]", L))
 	}
-	N := c.Pick(12000, 100000)
+	N := c.Pick(12000, 400000)
 	r := c.Rng
 	for it := 0; it < N; it++ {
 		c.NextOwn()
